@@ -45,3 +45,43 @@ package store
 //@ ensures [fail]    err != nil ==> this.credit == old(this.credit) && this.total == old(this.total)
 //@                                  && this.loglen == old(this.loglen) && this.logid == old(this.logid) && this.logamt == old(this.logamt)
 //@ modifies this.credit, this.total, this.loglen, this.logid, this.logamt
+
+// ---- effects: a ghost counter of effectful operations performed on behalf of a request.
+// Every store mutator, every outgoing RPC to a host and every settlement increments it;
+// "a refused request changes nothing" (C06) and "acts only on authenticated requests" (C04)
+// are stated over it.
+//@ ghost var effects int
+
+//@ interface store.NonceStore.CheckAndSaveNonce(ID, nonce) (err)
+//@ ensures [accept]  err == nil ==> old(this.nonce[ID]) < nonce && this.nonce == upd(old(this.nonce), ID, nonce) && effects == old(effects) + 1
+//@ ensures [reject]  err != nil ==> this.nonce == old(this.nonce) && effects == old(effects)
+//@ ensures [errkind] !typeis(err, balance.LowBalanceError) && !typeis(err, pool.VerifyFailedError)
+//@ defines [nonce-ok]   err == nil ==> nonceOK && nonceID == ID && nonceVal == nonce
+//@ defines [nonce-fail] err != nil ==> nonceOK == old(nonceOK) && nonceID == old(nonceID) && nonceVal == old(nonceVal)
+//@ modifies this.nonce, effects, nonceOK, nonceID, nonceVal
+
+//@ interface store.PoolStore.SetNode(n) (err)
+//@ ensures [effect]  effects >= old(effects) && (err != nil ==> effects == old(effects))
+//@ ensures [errkind] !typeis(err, balance.LowBalanceError) && !typeis(err, pool.VerifyFailedError)
+//@ modifies effects, this.reg
+
+//@ interface store.PoolStore.GetNode(id) (result, err)
+//@ ensures [errkind] !typeis(err, balance.LowBalanceError) && !typeis(err, pool.VerifyFailedError)
+//@ ensures [found]   err == nil ==> result != nil && result.ID == id
+//@ ensures [missing] err != nil ==> result == nil
+//@ modifies nothing
+
+//@ interface store.PoolStore.UpdateNodePeers(nodeID, peers, blockNumber) (inactive, err)
+//@ ensures [effect]  effects >= old(effects) && (err != nil ==> effects == old(effects))
+//@ ensures [errkind] !typeis(err, balance.LowBalanceError) && !typeis(err, pool.VerifyFailedError)
+//@ modifies effects
+
+//@ interface store.PoolStore.NodePeers(nodeID) (result, err)
+//@ ensures [errkind] !typeis(err, balance.LowBalanceError) && !typeis(err, pool.VerifyFailedError)
+//@ modifies nothing
+
+//@ interface store.PoolStore.ActiveHosts(kind, limit) (result, err)
+//@ requires limit >= 0
+//@ ensures [errkind] !typeis(err, balance.LowBalanceError) && !typeis(err, pool.VerifyFailedError)
+//@ ensures [limit]   err == nil && limit > 0 ==> len(result) <= limit
+//@ modifies nothing
